@@ -67,4 +67,16 @@ VARIANTS += [
 VARIANTS += [
     V("twin-interp-endpoint-shortcut", LI, FORM, "    if t == t1:\n        return y1\n" + FORM, expect="silent"),
     V("interp-near-endpoint-shortcut-absolute", LI, FORM, "    if t1 - t <= 1e-5 * abs(t1):\n        return y1\n" + FORM, rule="R12"),
+    V("twin-outputs-in-preallocated-tensor", CORE + "base_solver.py", "        ys = [y0]\n",
+      "        ys = torch.empty(len(ts), *y0.shape, dtype=y0.dtype, device=y0.device)\n        ys[0] = y0\n", expect="silent",
+      more=(("        for out_t in ts[1:]:\n", "        for i, out_t in enumerate(ts[1:], start=1):\n"),
+            ("            ys.append(interp.linear_interp(t0=prev_t, y0=prev_y, t1=curr_t, y1=curr_y, t=out_t))\n",
+             "            ys[i] = interp.linear_interp(t0=prev_t, y0=prev_y, t1=curr_t, y1=curr_y, t=out_t)\n"),
+            ("        return torch.stack(ys, dim=0), curr_extra\n", "        return ys, curr_extra\n"))),
+    V("buffer-written-at-wrong-row", CORE + "base_solver.py", "        ys = [y0]\n",
+      "        ys = torch.empty(len(ts), *y0.shape, dtype=y0.dtype, device=y0.device)\n        ys[0] = y0\n", rule="R12.3",
+      more=(("        for out_t in ts[1:]:\n", "        for i, out_t in enumerate(ts[1:], start=1):\n"),
+            ("            ys.append(interp.linear_interp(t0=prev_t, y0=prev_y, t1=curr_t, y1=curr_y, t=out_t))\n",
+             "            ys[i - 1] = interp.linear_interp(t0=prev_t, y0=prev_y, t1=curr_t, y1=curr_y, t=out_t)\n"),
+            ("        return torch.stack(ys, dim=0), curr_extra\n", "        return ys, curr_extra\n"))),
 ]
